@@ -71,6 +71,15 @@ def size_variants(o, idx, rng=None, full=False):
     if rng is not None:
         c.append(rng.randint(lo, min(hi, 70000)))
         c.append(rng.randint(lo, hi))
+        # a relation between two fields: the size equals another size / count / length of the same message (the limit of
+        # an enclosing region, sizeofSelect, a digest length), or the region ends exactly where a later field starts
+        others = sorted(set([o.items[i][3] for i, _r in o.sizefields if i != idx] + [o.items[i][3] for i in o.counts if i >= 0] + [20, 32, 48, 64]))
+        c += rng.sample(others, min(3, len(others)))
+        reg0 = next((o.regions[r] for i, r in o.sizefields if i == idx), None)
+        if reg0 is not None:
+            later = [x[4] - reg0.start for x in o.items[idx + 1:idx + 40] if x[0] == "P" and x[4] - reg0.start > 0]
+            if later:
+                c += rng.sample(later, min(2, len(later)))
     # declared end just beyond / exactly at the end of each enclosing region (padding then crosses that end)
     reg = next((o.regions[r] for i, r in o.sizefields if i == idx), None)
     if reg is not None and reg.max is not None:
@@ -185,6 +194,34 @@ def fault_nested_pair(data, o, rng):
         return None
     return cur2, [_rec("size", o, ita, size_item[ai], old=ita[3], new=new_a, region=a.kind, delta="beyond" if new_a in beyond else "variant"),
                   _rec("size", o, itb, size_item[bi], old=itb[3], new=new_b, region=b.kind, delta=delta)]
+
+
+def fault_end_at_selector(data, o, rng):
+    """two coordinated faults: a union selector is made invalid (selects no member) and an enclosing sized region is made to
+    end exactly behind the selector, i.e. exactly where the union would start - nothing is left over, nothing is missing,
+    only the layout is unknowable"""
+    size_item = {ri: idx for idx, ri in o.sizefields}
+    cands = []
+    for si in o.selectors:
+        it = o.items[si]
+        for ri, r in enumerate(o.regions):
+            if r.max is not None and ri in size_item and size_item[ri] < si and r.start <= it[4] < r.start + r.max:
+                cands.append((si, ri))
+    if not cands:
+        return None
+    si, ri = rng.choice(cands)
+    it, r = o.items[si], o.regions[ri]
+    vs = outside_values(it[2], rng)
+    if not vs:
+        return None
+    cur = put(data, it, rng.choice(vs))
+    sit = o.items[size_item[ri]]
+    new = it[4] + it[5] - r.start
+    cur2 = put(cur, sit, new) if cur is not None else None
+    if cur2 is None:
+        return None
+    return cur2, [_rec("selector_invalid", o, it, si, old=it[3], new=int.from_bytes(cur[it[4]:it[4] + it[5]], "big")),
+                  _rec("size", o, sit, size_item[ri], old=sit[3], new=new, region=r.kind, delta="ends-at-union")]
 
 
 def fault_count(data, o, rng):
